@@ -26,13 +26,15 @@ use std::sync::Arc;
 use vharness::common::*;
 
 const BASE: i64 = 1_700_000_000_000;
-const NF: usize = 3; // scalar fields f0..f2
+const NF: usize = 4; // scalar fields f0..f3 (f3 is a String "s<int>")
+/// model defaults: f0 nullable (absent), f1/f2 Integer with default, f3 String with default "s30"
+const DEFAULTS: [Option<i64>; NF] = [None, Some(70), Some(90), Some(30)];
 const NTAGS: u64 = 3; // referenced rows t0..t2
-const MODEL: &str = "ns {
-    Row { f0: Integer nullable, f1: Integer nullable, f2: Integer nullable,
+const MODEL: &str = r#"ns {
+    Row { f0: Integer nullable, f1: Integer default 70, f2: Integer default 90, f3: String default "s30",
           tags: [ns.Tag] nullable, owner: ns.Tag nullable, more: [ns.Tag] nullable }
     Tag { n: Integer nullable }
-}";
+}"#;
 const LABELS: [&str; 3] = ["tags", "owner", "more"]; // model labels 0 (array), 1 (single), 2 (array)
 const UNKNOWN_ROW: u64 = 9;
 
@@ -48,6 +50,7 @@ struct Scen { rows: Vec<RowInit>, muts: Vec<Mut> }
 enum Ev { R(usize), V(usize), W(usize) }
 
 fn mdate_of(i: usize) -> i64 { 1000 * (i as i64 + 1) }
+fn lit(f: u64, v: i64) -> String { if f == 3 { format!("\"s{}\"", v) } else { format!("{}", v) } }
 
 // ---------------------------------------------------------------- Gallina printing
 fn refop_coq(r: &RefOp) -> String {
@@ -62,7 +65,7 @@ fn scen_db_coq(s: &Scen) -> String {
     let mut edges = vec![];
     for (k, r) in s.rows.iter().enumerate() {
         let id = k as u64 + 1;
-        let fs: Vec<String> = r.fields.iter().enumerate().filter_map(|(f, v)| v.map(|v| format!("({}, {})", gn(f as u64), gz(v)))).collect();
+        let fs: Vec<String> = r.fields.iter().enumerate().filter_map(|(f, v)| v.or(DEFAULTS[f]).map(|v| format!("({}, {})", gn(f as u64), gz(v)))).collect();
         rows.push(format!("{{| r_id := {}; r_room := {}; r_mdate := 0; r_fields := {} |}}", gn(id), gon(r.room), glist(&fs)));
         for (l, t) in &r.edges {
             edges.push(format!("{{| e_src := {}; e_label := {}; e_dest := {}; e_cdate := 0 |}}", gn(id), gn(*l), gn(*t)));
@@ -91,9 +94,7 @@ struct Env {
     dm: DataModel,
     parsers: HashMap<String, Arc<MutationParser>>,
     ra: RoomAuthorisations,
-    row_short: String,
-    field_short: Vec<String>,
-    label_short: Vec<String>,
+    shorts: Shorts,
     // of the current run
     tags: Vec<[u8; 16]>,
     rows: Vec<[u8; 16]>,
@@ -125,16 +126,13 @@ impl Env {
         let mut dm = DataModel::new();
         dm.update_system(SYSTEM_DATA_MODEL).unwrap();
         dm.update(MODEL).unwrap();
-        let row = dm.get_entity("ns.Row").unwrap();
-        let row_short = row.short_name.clone();
-        let field_short = (0..NF).map(|f| row.get_field(&format!("f{}", f)).unwrap().short_name.clone()).collect();
-        let label_short = LABELS.iter().map(|l| row.get_field(l).unwrap().short_name.clone()).collect();
+        let shorts = Shorts::of(&dm);
         let sk = Ed25519SigningKey::create_from(&[7u8; 32]);
         let vk = sk.export_verifying_key();
         let mut rooms = HashMap::new();
         for r in 1..=2u64 { rooms.insert(uid_of(r), full_room(r, &vk)); }
         let ra = RoomAuthorisations { signing_key: sk, rooms, max_node_size: 256 * 1024 };
-        Env { rconn, wconn, dm, parsers: HashMap::new(), ra, row_short, field_short, label_short,
+        Env { rconn, wconn, dm, parsers: HashMap::new(), ra, shorts,
               tags: vec![], rows: vec![], in_txn: false, stats: HashMap::new() }
     }
     fn bump(&mut self, k: &'static str) { *self.stats.entry(k).or_insert(0) += 1; }
@@ -176,49 +174,13 @@ impl Env {
             self.tags.push(mq.mutate_entities[0].node_to_mutate.id);
         }
         for r in &s.rows {
-            let mut params = Parameters::default();
-            let mut body = String::new();
-            if let Some(room) = r.room {
-                params.add("room", base64_encode(&uid_of(room))).unwrap();
-                body.push_str(" room_id:$room");
-            }
-            for (f, v) in r.fields.iter().enumerate() { if let Some(v) = v { body.push_str(&format!(" f{}:{}", f, v)); } }
-            for (l, name) in LABELS.iter().enumerate() {
-                let ts: Vec<u64> = r.edges.iter().filter(|e| e.0 == l as u64).map(|e| e.1).collect();
-                if ts.is_empty() { continue; }
-                let refs: Vec<String> = ts.iter().map(|t| { let k = format!("t{}_{}", l, t); params.add(&k, base64_encode(&self.tags[*t as usize])).unwrap(); format!("{{id:${}}}", k) }).collect();
-                if l == 1 { body.push_str(&format!(" {}:{}", name, refs[0])); } else { body.push_str(&format!(" {}:[{}]", name, refs.join(","))); }
-            }
-            if body.is_empty() { body.push_str(" f0:null"); }
-            let mq = self.mutate_now(&format!("mutate {{ ns.Row {{{} }} }}", body), params);
+            let (text, params) = creation_text(r, &self.tags);
+            let mq = self.mutate_now(&text, params);
             self.rows.push(mq.mutate_entities[0].node_to_mutate.id);
         }
     }
 
-    fn mutation_text(&self, m: &Mut) -> (String, Parameters) {
-        let mut params = Parameters::default();
-        let id = if m.row == UNKNOWN_ROW { uid_of(999) } else { self.rows[m.row as usize - 1] };
-        params.add("id", base64_encode(&id)).unwrap();
-        let mut body = String::from(" id:$id");
-        if let Some(room) = m.room { params.add("room", base64_encode(&uid_of(room))).unwrap(); body.push_str(" room_id:$room"); }
-        for (f, v) in &m.assign { body.push_str(&format!(" f{}:{}", f, v)); }
-        for (k, r) in m.refs.iter().enumerate() {
-            match r {
-                RefOp::Add(l, ds) => {
-                    let refs: Vec<String> = ds.iter().enumerate().map(|(j, t)| { let key = format!("a{}_{}", k, j); params.add(&key, base64_encode(&self.tags[*t as usize])).unwrap(); format!("{{id:${}}}", key) }).collect();
-                    body.push_str(&format!(" {}:[{}]", LABELS[*l as usize], refs.join(",")));
-                }
-                RefOp::Set(l, t) => {
-                    let key = format!("s{}", k);
-                    params.add(&key, base64_encode(&self.tags[*t as usize])).unwrap();
-                    body.push_str(&format!(" {}:{{id:${}}}", LABELS[*l as usize], key));
-                }
-                RefOp::Clear(l) => body.push_str(&format!(" {}:null", LABELS[*l as usize])),
-            }
-        }
-        (format!("mutate {{ ns.Row {{{} }} }}", body), params)
-    }
-
+    fn mutation_text(&self, m: &Mut) -> (String, Parameters) { mutation_text(m, &self.rows, &self.tags) }
     /// runs one schedule against the real phases; returns acknowledgements ++ final state
     fn exec(&mut self, s: &Scen, sigma: &[Ev], batch: bool) -> Vec<i64> {
         self.reset(s);
@@ -264,38 +226,98 @@ impl Env {
         out
     }
 
-    fn tag_index(&self, id: &[u8]) -> i64 { self.tags.iter().position(|t| t[..] == id[..]).map(|p| p as i64).unwrap_or(-7) }
-    fn row_index(&self, id: &[u8]) -> i64 { self.rows.iter().position(|t| t[..] == id[..]).map(|p| p as i64 + 1).unwrap_or(-7) }
-
     fn dump(&mut self, s: &Scen) -> Vec<i64> {
-        let mut out = vec![];
-        let nrows: i64 = self.rconn.query_row("SELECT count(*) FROM _node WHERE _entity = ?", [&self.row_short], |r| r.get(0)).unwrap();
+        let nrows: i64 = self.rconn.query_row("SELECT count(*) FROM _node WHERE _entity = ?", [&self.shorts.row], |r| r.get(0)).unwrap();
         assert_eq!(nrows as usize, s.rows.len(), "row count changed");
-        for k in 0..s.rows.len() {
-            let node = Node::get_with_entity(&self.rows[k], &self.row_short, &self.rconn).unwrap().expect("row vanished");
-            if node.verify().is_err() { self.bump("final_row_signature_invalid"); out.push(-99); }
-            out.push(k as i64 + 1);
-            out.push(match node.room_id { Some(r) => if r == uid_of(1) { 1 } else if r == uid_of(2) { 2 } else { -7 }, None => -1 });
-            out.push(node.mdate - BASE);
-            let v: serde_json::Value = serde_json::from_str(node._json.as_deref().unwrap_or("{}")).unwrap();
-            for f in 0..NF {
-                out.push(match v.get(&self.field_short[f]) { Some(serde_json::Value::Number(n)) => n.as_i64().unwrap(), Some(serde_json::Value::Null) | None => -1, Some(_) => -8 });
-            }
-        }
-        let mut es: Vec<(i64, i64, i64, i64)> = vec![];
-        {
-            let mut st = self.rconn.prepare("SELECT src, label, dest, cdate FROM _edge").unwrap();
-            let rows = st.query_map([], |r| Ok((r.get::<_, Vec<u8>>(0)?, r.get::<_, String>(1)?, r.get::<_, Vec<u8>>(2)?, r.get::<_, i64>(3)?))).unwrap();
-            for r in rows {
-                let (src, label, dest, cdate) = r.unwrap();
-                let l = self.label_short.iter().position(|x| *x == label).map(|p| p as i64).unwrap_or(-7);
-                es.push((self.row_index(&src), l, self.tag_index(&dest), cdate - BASE));
-            }
-        }
-        es.sort();
-        for e in es { out.extend([e.0, e.1, e.2, e.3]); }
+        let (out, bad_sig) = dump_conn(&self.rconn, &self.shorts, &self.rows, &self.tags);
+        for _ in 0..bad_sig { self.bump("final_row_signature_invalid"); }
         out
     }
+}
+
+#[derive(Clone)]
+struct Shorts { row: String, fields: Vec<String>, labels: Vec<String> }
+impl Shorts {
+    fn of(dm: &DataModel) -> Shorts {
+        let row = dm.get_entity("ns.Row").unwrap();
+        Shorts { row: row.short_name.clone(),
+                 fields: (0..NF).map(|f| row.get_field(&format!("f{}", f)).unwrap().short_name.clone()).collect(),
+                 labels: LABELS.iter().map(|l| row.get_field(l).unwrap().short_name.clone()).collect() }
+    }
+}
+/// final rows (id, room, mdate, fields) in scenario order, then the references of these rows sorted
+fn dump_conn(conn: &Connection, sh: &Shorts, rows: &[[u8; 16]], tags: &[[u8; 16]]) -> (Vec<i64>, u64) {
+    let mut out = vec![];
+    let mut bad_sig = 0;
+    for k in 0..rows.len() {
+        let node = Node::get_with_entity(&rows[k], &sh.row, conn).unwrap().expect("row vanished");
+        if node.verify().is_err() { bad_sig += 1; out.push(-99); }
+        out.push(k as i64 + 1);
+        out.push(match node.room_id { Some(r) => if r == uid_of(1) { 1 } else if r == uid_of(2) { 2 } else { -7 }, None => -1 });
+        out.push(node.mdate - BASE);
+        let v: serde_json::Value = serde_json::from_str(node._json.as_deref().unwrap_or("{}")).unwrap();
+        for f in 0..NF {
+            out.push(match v.get(&sh.fields[f]) {
+                Some(serde_json::Value::Number(n)) if f != 3 => n.as_i64().unwrap(),
+                Some(serde_json::Value::String(t)) if f == 3 => t.strip_prefix('s').and_then(|x| x.parse::<i64>().ok()).unwrap_or(-8),
+                Some(serde_json::Value::Null) | None => -1,
+                Some(_) => -8 });
+        }
+    }
+    let mut es: Vec<(i64, i64, i64, i64)> = vec![];
+    let mut st = conn.prepare("SELECT src, label, dest, cdate FROM _edge").unwrap();
+    let found = st.query_map([], |r| Ok((r.get::<_, Vec<u8>>(0)?, r.get::<_, String>(1)?, r.get::<_, Vec<u8>>(2)?, r.get::<_, i64>(3)?))).unwrap();
+    for r in found {
+        let (src, label, dest, cdate) = r.unwrap();
+        let Some(ri) = rows.iter().position(|t| t[..] == src[..]) else { continue };
+        let l = sh.labels.iter().position(|x| *x == label).map(|p| p as i64).unwrap_or(-7);
+        let t = tags.iter().position(|t| t[..] == dest[..]).map(|p| p as i64).unwrap_or(-7);
+        es.push((ri as i64 + 1, l, t, cdate - BASE));
+    }
+    es.sort();
+    for e in es { out.extend([e.0, e.1, e.2, e.3]); }
+    (out, bad_sig)
+}
+
+fn creation_text(r: &RowInit, tags: &[[u8; 16]]) -> (String, Parameters) {
+    let mut params = Parameters::default();
+    let mut body = String::new();
+    if let Some(room) = r.room {
+        params.add("room", base64_encode(&uid_of(room))).unwrap();
+        body.push_str(" room_id:$room");
+    }
+    for (f, v) in r.fields.iter().enumerate() { if let Some(v) = v { body.push_str(&format!(" f{}:{}", f, lit(f as u64, *v))); } }
+    for (l, name) in LABELS.iter().enumerate() {
+        let ts: Vec<u64> = r.edges.iter().filter(|e| e.0 == l as u64).map(|e| e.1).collect();
+        if ts.is_empty() { continue; }
+        let refs: Vec<String> = ts.iter().map(|t| { let k = format!("t{}_{}", l, t); params.add(&k, base64_encode(&tags[*t as usize])).unwrap(); format!("{{id:${}}}", k) }).collect();
+        if l == 1 { body.push_str(&format!(" {}:{}", name, refs[0])); } else { body.push_str(&format!(" {}:[{}]", name, refs.join(","))); }
+    }
+    if body.is_empty() { body.push_str(" f0:null"); }
+    (format!("mutate {{ ns.Row {{{} }} }}", body), params)
+}
+fn mutation_text(m: &Mut, rows: &[[u8; 16]], tags: &[[u8; 16]]) -> (String, Parameters) {
+    let mut params = Parameters::default();
+    let id = if m.row == UNKNOWN_ROW { uid_of(999) } else { rows[m.row as usize - 1] };
+        params.add("id", base64_encode(&id)).unwrap();
+        let mut body = String::from(" id:$id");
+        if let Some(room) = m.room { params.add("room", base64_encode(&uid_of(room))).unwrap(); body.push_str(" room_id:$room"); }
+        for (f, v) in &m.assign { body.push_str(&format!(" f{}:{}", f, lit(*f, *v))); }
+        for (k, r) in m.refs.iter().enumerate() {
+            match r {
+                RefOp::Add(l, ds) => {
+                    let refs: Vec<String> = ds.iter().enumerate().map(|(j, t)| { let key = format!("a{}_{}", k, j); params.add(&key, base64_encode(&tags[*t as usize])).unwrap(); format!("{{id:${}}}", key) }).collect();
+                    body.push_str(&format!(" {}:[{}]", LABELS[*l as usize], refs.join(",")));
+                }
+                RefOp::Set(l, t) => {
+                    let key = format!("s{}", k);
+                    params.add(&key, base64_encode(&tags[*t as usize])).unwrap();
+                    body.push_str(&format!(" {}:{{id:${}}}", LABELS[*l as usize], key));
+                }
+                RefOp::Clear(l) => body.push_str(&format!(" {}:null", LABELS[*l as usize])),
+            }
+        }
+        (format!("mutate {{ ns.Row {{{} }} }}", body), params)
 }
 
 // ---------------------------------------------------------------- orders and schedules
@@ -388,9 +410,15 @@ fn join(chunks: &[Vec<i64>]) -> Vec<i64> {
     out
 }
 
-struct Runner { env: Env, serial_cache: HashMap<String, Vec<Vec<i64>>>, n_serializable: u64, n_not: u64, n_overlap: u64 }
+struct Runner { env: Env, svc: Svc, serial_cache: HashMap<String, Vec<Vec<i64>>>, n_serializable: u64, n_not: u64, n_overlap: u64, n_sequential: u64 }
 impl Runner {
-    fn case(&mut self, kind: &str, s: &Scen, sigma: &[Ev], batch: bool) -> Case {
+    fn case(&mut self, kind: &str, s: &Scen, sigma: &[Ev], batch: bool) -> Case { self.case_with(kind, s, sigma, batch, None) }
+    /// a strictly sequential run through the real service (every mutation awaited)
+    fn case_service(&mut self, kind: &str, s: &Scen, pi: &[usize]) -> Case {
+        let got = self.svc.exec(s, pi);
+        self.case_with(kind, s, &serial_sched(pi), false, Some(got))
+    }
+    fn case_with(&mut self, kind: &str, s: &Scen, sigma: &[Ev], batch: bool, through_service: Option<Vec<i64>>) -> Case {
         let key = format!("{} {}", scen_db_coq(s), muts_coq(s));
         if !self.serial_cache.contains_key(&key) {
             let idx: Vec<usize> = (0..s.muts.len()).collect();
@@ -398,7 +426,10 @@ impl Runner {
             self.serial_cache.insert(key.clone(), v);
         }
         let serial = self.serial_cache.get(&key).unwrap().clone();
-        let got = self.env.exec(s, sigma, batch);
+        let via_service = through_service.is_some();
+        let got = match through_service { Some(g) => g, None => self.env.exec(s, sigma, batch) };
+        let sequential = sigma.chunks(3).all(|c| matches!(c, [Ev::R(a), Ev::V(b), Ev::W(c)] if a == b && b == c));
+        if sequential { self.n_sequential += 1 }
         let serialisable = serial.iter().any(|x| *x == got);
         let ov = overlapping(s, sigma);
         if serialisable { self.n_serializable += 1 } else { self.n_not += 1 }
@@ -409,22 +440,34 @@ impl Runner {
         Case { kind: kind.to_string(),
                coq: format!("CSched {} {} {} {} {}", scen_db_coq(s), gn(NF as u64), muts_coq(s), sigma_coq(sigma), gb(batch)),
                obs: join(&chunks),
-               meta: json!({"schedule": sigma_txt(sigma), "mutations": s.muts.len(), "batched_writes": batch, "overlapping_windows": ov,
+               meta: json!({"schedule": sigma_txt(sigma), "mutations": s.muts.len(), "batched_writes": batch, "overlapping_windows": ov, "strictly_sequential": sequential, "through_the_real_service": via_service,
                             "equals_a_serial_outcome": serialisable, "distinct_serial_outcomes": distinct_serial, "final": got}) }
     }
 }
 
 // ---------------------------------------------------------------- scenarios
-fn row1() -> RowInit { RowInit { room: Some(1), fields: vec![Some(1), Some(2), None], edges: vec![(0, 0), (1, 0)] } }
+// f2 keeps its default (90); f1 and f3 hold NON-default values before the schedule
+fn row1() -> RowInit { RowInit { room: Some(1), fields: vec![Some(1), Some(2), None, Some(12)], edges: vec![(0, 0), (1, 0)] } }
+fn row_free() -> RowInit { RowInit { room: None, fields: vec![Some(1), Some(2), Some(3), Some(12)], edges: vec![(0, 0), (1, 0)] } }
 fn m(row: u64, room: Option<u64>, assign: &[(u64, i64)], refs: &[RefOp]) -> Mut { Mut { row, room, assign: assign.to_vec(), refs: refs.to_vec() } }
 
 fn directed() -> Vec<(&'static str, Scen)> {
-    let two_rows = vec![row1(), RowInit { room: None, fields: vec![None, Some(5), Some(6)], edges: vec![(2, 1)] }];
+    let two_rows = vec![row1(), RowInit { room: None, fields: vec![None, Some(5), Some(6), None], edges: vec![(2, 1)] }];
     vec![
-        // the three witnesses of the known finding (C16_refuted_*)
+        // the three witnesses of known finding 1 (C16_refuted_*)
         ("different-fields", Scen { rows: vec![row1()], muts: vec![m(1, None, &[(0, 11)], &[]), m(1, None, &[(1, 22)], &[])] }),
         ("reference-replace-vs-replace", Scen { rows: vec![row1()], muts: vec![m(1, None, &[], &[RefOp::Set(1, 1)]), m(1, None, &[], &[RefOp::Set(1, 2)])] }),
         ("room-move-vs-field", Scen { rows: vec![row1()], muts: vec![m(1, Some(2), &[(0, 11)], &[]), m(1, None, &[(1, 22)], &[])] }),
+        // the witness of known finding 2 (C16_refuted_room_only)
+        ("room-only", Scen { rows: vec![row1()], muts: vec![m(1, Some(2), &[], &[]), m(1, None, &[(1, 22)], &[])] }),
+        // fields with defaults / nullable fields holding other values must survive partial updates
+        ("partial-updates-keep-other-fields", Scen { rows: vec![row_free()], muts: vec![m(1, None, &[(3, 41)], &[]), m(1, None, &[(0, 11)], &[])] }),
+        ("partial-updates-keep-other-fields-in-room", Scen { rows: vec![RowInit { room: Some(1), fields: vec![Some(4), Some(5), Some(6), Some(7)], edges: vec![] }],
+            muts: vec![m(1, None, &[(1, 71)], &[]), m(1, None, &[(2, 91)], &[RefOp::Set(1, 1)])] }),
+        // a target already referenced through ANOTHER field is added to an array field / set as single reference
+        ("add-target-referenced-by-other-field", Scen { rows: vec![RowInit { room: None, fields: vec![Some(1), None, None, None], edges: vec![(1, 1)] }],
+            muts: vec![m(1, None, &[], &[RefOp::Set(1, 2)]), m(1, None, &[], &[RefOp::Add(2, vec![2])])] }),
+        ("same-target-in-three-fields", Scen { rows: vec![row1()], muts: vec![m(1, None, &[], &[RefOp::Add(2, vec![0])]), m(1, None, &[], &[RefOp::Set(1, 1), RefOp::Add(0, vec![1]), RefOp::Add(2, vec![1])])] }),
         // corner cases
         ("same-field", Scen { rows: vec![row1()], muts: vec![m(1, None, &[(0, 11)], &[]), m(1, None, &[(0, 22)], &[])] }),
         ("reference-add-vs-replace", Scen { rows: vec![row1()], muts: vec![m(1, None, &[], &[RefOp::Add(0, vec![1])]), m(1, None, &[], &[RefOp::Clear(0)])] }),
@@ -434,25 +477,27 @@ fn directed() -> Vec<(&'static str, Scen)> {
         ("room-move-vs-room-move", Scen { rows: vec![row1()], muts: vec![m(1, Some(2), &[(0, 11)], &[]), m(1, Some(1), &[(0, 12)], &[RefOp::Clear(1)])] }),
         ("different-rows", Scen { rows: two_rows.clone(), muts: vec![m(1, None, &[(0, 11)], &[RefOp::Set(1, 2)]), m(2, Some(2), &[(0, 22)], &[RefOp::Add(0, vec![0])])] }),
         ("unknown-row", Scen { rows: vec![row1()], muts: vec![m(UNKNOWN_ROW, None, &[(0, 11)], &[]), m(1, None, &[(1, 22)], &[])] }),
-        ("no-room", Scen { rows: vec![RowInit { room: None, fields: vec![None, None, None], edges: vec![] }], muts: vec![m(1, None, &[(0, 11)], &[RefOp::Set(1, 1)]), m(1, None, &[(1, 22)], &[RefOp::Set(1, 1)])] }),
+        ("no-room", Scen { rows: vec![RowInit { room: None, fields: vec![None, None, None, None], edges: vec![] }], muts: vec![m(1, None, &[(0, 11)], &[RefOp::Set(1, 1)]), m(1, None, &[(1, 22)], &[RefOp::Set(1, 1)])] }),
     ]
 }
 fn directed3() -> Vec<(&'static str, Scen)> {
-    let two_rows = vec![row1(), RowInit { room: Some(2), fields: vec![None, Some(5), Some(6)], edges: vec![(2, 1)] }];
+    let two_rows = vec![row1(), RowInit { room: Some(2), fields: vec![None, Some(5), Some(6), Some(8)], edges: vec![(2, 1)] }];
     vec![
-        ("3-different-fields", Scen { rows: vec![row1()], muts: vec![m(1, None, &[(0, 11)], &[]), m(1, None, &[(1, 22)], &[]), m(1, None, &[(2, 33)], &[])] }),
+        ("3-different-fields", Scen { rows: vec![row1()], muts: vec![m(1, None, &[(0, 11)], &[]), m(1, None, &[(1, 22)], &[]), m(1, None, &[(3, 33)], &[])] }),
         ("3-field-reference-room", Scen { rows: vec![row1()], muts: vec![m(1, None, &[(0, 11)], &[]), m(1, None, &[], &[RefOp::Set(1, 1), RefOp::Add(0, vec![2])]), m(1, Some(2), &[(0, 12)], &[RefOp::Clear(0)])] }),
-        ("3-two-rows", Scen { rows: two_rows, muts: vec![m(1, None, &[(0, 11)], &[]), m(2, None, &[(0, 22)], &[RefOp::Set(1, 0)]), m(1, None, &[(1, 33)], &[RefOp::Set(1, 2)])] }),
+        ("3-two-rows", Scen { rows: two_rows, muts: vec![m(1, None, &[(0, 11)], &[]), m(2, None, &[(0, 22)], &[RefOp::Set(1, 0)]), m(1, None, &[(1, 33)], &[RefOp::Set(1, 2), RefOp::Add(2, vec![2])])] }),
     ]
 }
 
-fn gen_refop(rng: &mut Rng, used: &mut Vec<u64>) -> Option<RefOp> {
+fn gen_refop(rng: &mut Rng, used: &mut Vec<u64>, prefer: Option<u64>) -> Option<RefOp> {
     let l = rng.below(3);
     if used.contains(&l) { return None; }
     used.push(l);
+    // targets are shared between the three reference fields; often the one another field already has
+    let tag = |rng: &mut Rng| match prefer { Some(t) if rng.chance(1, 2) => t, _ => rng.below(NTAGS) };
     Some(if rng.chance(1, 4) { RefOp::Clear(l) }
-         else if l == 1 { RefOp::Set(1, rng.below(NTAGS)) }
-         else { RefOp::Add(l, (0..1 + rng.below(2)).map(|_| rng.below(NTAGS)).collect()) })
+         else if l == 1 { RefOp::Set(1, tag(rng)) }
+         else { RefOp::Add(l, (0..1 + rng.below(2)).map(|_| tag(rng)).collect()) })
 }
 fn gen_scen(rng: &mut Rng, n: usize) -> Scen {
     let nrows = if rng.chance(1, 2) { 2 } else { 1 };
@@ -460,22 +505,31 @@ fn gen_scen(rng: &mut Rng, n: usize) -> Scen {
         let mut edges = vec![];
         for l in [0u64, 2] { for t in 0..NTAGS { if rng.chance(1, 3) { edges.push((l, t)); } } }
         if rng.chance(1, 2) { edges.push((1, rng.below(NTAGS))); }
-        RowInit { room: if rng.chance(1, 5) { None } else { Some(1 + rng.below(2)) },
-                  fields: (0..NF).map(|_| if rng.chance(1, 2) { Some(rng.range(1, 9)) } else { None }).collect(), edges }
+        // given values differ from the defaults (70, 90, "s30"); None = nullable absent / default stored
+        RowInit { room: if rng.chance(1, 4) { None } else { Some(1 + rng.below(2)) },
+                  fields: (0..NF).map(|_| if rng.chance(2, 3) { Some(rng.range(1, 9)) } else { None }).collect(), edges }
     }).collect();
     let muts: Vec<Mut> = (0..n).map(|i| {
         let row = if rng.chance(1, 40) { UNKNOWN_ROW } else { 1 + rng.below(nrows as u64) };
         let mut assign = vec![];
-        for f in 0..NF as u64 { if rng.chance(1, 3) { assign.push((f, 10 * (i as i64 + 1) + f as i64)); } }
+        for f in 0..NF as u64 { if rng.chance(1, 4) { assign.push((f, 10 * (i as i64 + 1) + f as i64)); } }
         let mut used = vec![];
         let mut refs = vec![];
-        for _ in 0..rng.below(3) { if let Some(r) = gen_refop(rng, &mut used) { refs.push(r); } }
-        if assign.is_empty() && refs.is_empty() && !rng.chance(1, 4) { assign.push((rng.below(NF as u64), 10 * (i as i64 + 1))); }
+        let prefer = rows.get(row as usize - 1).and_then(|r| r.edges.first().map(|e| e.1));
+        for _ in 0..rng.below(3) { if let Some(r) = gen_refop(rng, &mut used, prefer) { refs.push(r); } }
+        if assign.is_empty() && refs.is_empty() && !rng.chance(1, 6) { assign.push((rng.below(NF as u64), 10 * (i as i64 + 1))); }
         // a row that is in a room keeps a room; rows outside rooms are not moved into one here
-        let room = if rows.get(row as usize - 1).map(|r| r.room.is_some()).unwrap_or(false) && rng.chance(1, 4) { Some(1 + rng.below(2)) } else { None };
+        let room = if rows.get(row as usize - 1).map(|r| r.room.is_some()).unwrap_or(false) && rng.chance(1, 5) { Some(1 + rng.below(2)) } else { None };
         Mut { row, room, assign, refs }
     }).collect();
     Scen { rows, muts }
+}
+/// the same scenario outside rooms (for the runs through the real service); None if a mutation moves the row
+fn without_rooms(s: &Scen) -> Option<Scen> {
+    if s.muts.iter().any(|m| m.room.is_some()) { return None; }
+    let mut t = s.clone();
+    for r in &mut t.rows { r.room = None; }
+    Some(t)
 }
 
 // ---------------------------------------------------------------- the real service (observation only)
@@ -515,6 +569,62 @@ fn observe_stream(dir: &PathBuf) -> serde_json::Value {
     res
 }
 
+/// the real service, strictly sequential callers: every mutation is awaited (`mutate_raw`) before the next
+struct Svc { rt: tokio::runtime::Runtime, app: GraphDatabaseService, shorts: Shorts }
+impl Svc {
+    fn start(dir: &PathBuf) -> Svc {
+        let rt = tokio::runtime::Builder::new_multi_thread().enable_all().build().unwrap();
+        let d = dir.clone();
+        let (app, shorts) = rt.block_on(async move {
+            let _ = std::fs::remove_dir_all(&d);
+            std::fs::create_dir_all(&d).unwrap();
+            let (app, _vk, _) = GraphDatabaseService::start("c16seq", MODEL, &random32(), &random32(), d.clone(), &Configuration::default(), EventService::new()).await.unwrap();
+            // the service's own short names (they are assigned when the model is first loaded)
+            let dm: DataModel = serde_json::from_str(&app.datamodel().await.unwrap()).unwrap();
+            (app, Shorts::of(&dm))
+        });
+        Svc { rt, app, shorts }
+    }
+    /// acknowledgements ++ final state after awaiting the mutations one by one in the order pi
+    fn exec(&self, s: &Scen, pi: &[usize]) -> Vec<i64> {
+        let app = self.app.clone();
+        let shorts = self.shorts.clone();
+        let s = s.clone();
+        let pi = pi.to_vec();
+        let out = self.rt.block_on(async move {
+            verif_clock::set(BASE);
+            let mut tags = vec![];
+            for t in 0..NTAGS {
+                let mq = app.mutate_raw(&format!("mutate {{ ns.Tag {{ n: {} }} }}", t), None).await.unwrap();
+                tags.push(mq.mutate_entities[0].node_to_mutate.id);
+            }
+            let mut rows = vec![];
+            for r in &s.rows {
+                let (text, params) = creation_text(r, &tags);
+                let mq = app.mutate_raw(&text, Some(params)).await.unwrap();
+                rows.push(mq.mutate_entities[0].node_to_mutate.id);
+            }
+            let mut acks = vec![0i64; s.muts.len()];
+            for i in pi {
+                verif_clock::set(BASE + mdate_of(i));
+                let (text, params) = mutation_text(&s.muts[i], &rows, &tags);
+                match app.mutate_raw(&text, Some(params)).await {
+                    Ok(_) => acks[i] = 1,
+                    Err(DbError::UnknownEntity(_, _)) => {}
+                    Err(e) => panic!("service mutation: {:?}", e),
+                }
+            }
+            let (tx, rx) = tokio::sync::oneshot::channel();
+            app.db.reader.send_async(Box::new(move |conn| { let _ = tx.send(dump_conn(conn, &shorts, &rows, &tags).0); })).await.unwrap();
+            let mut out = acks;
+            out.extend(rx.await.unwrap());
+            out
+        });
+        verif_clock::clear();
+        out
+    }
+}
+
 fn main() {
     let mut out = Out::create();
     let mut rng = Rng::from_env();
@@ -527,33 +637,55 @@ fn main() {
     eprintln!("c16: stream observation {:?}", t0.elapsed());
     out.push(Case { kind: "stream-observation".into(), coq: "CNote".into(), obs: vec![], meta: stream });
 
-    let mut rn = Runner { env: Env::new(&dir.join("db")), serial_cache: HashMap::new(), n_serializable: 0, n_not: 0, n_overlap: 0 };
+    let mut rn = Runner { env: Env::new(&dir.join("db")), svc: Svc::start(&dir.join("svc_seq")), serial_cache: HashMap::new(),
+                          n_serializable: 0, n_not: 0, n_overlap: 0, n_sequential: 0 };
     let sched2 = all_schedules(2);
     let sched3 = all_schedules(3);
+    let orders = |n: usize| perms(&(0..n).collect::<Vec<_>>());
 
-    // 1. directed: the witnesses of the known finding first (schedule R1 R2 V1 W1 V2 W2), then
-    //    every schedule of every directed 2-mutation scenario
+    // 1. the witnesses of the known findings first: class 1 with the schedule R1 R2 V1 W1 V2 W2,
+    //    class 2 with a strictly sequential schedule
     let lost = vec![Ev::R(0), Ev::R(1), Ev::V(0), Ev::W(0), Ev::V(1), Ev::W(1)];
     for (name, s) in directed().iter().take(3) { let c = rn.case(&format!("witness:{}", name), s, &lost, false); out.push(c); }
+    { let d = directed(); let (name, s) = &d[3]; let c = rn.case(&format!("witness:{}", name), s, &serial_sched(&[0, 1]), false); out.push(c); }
+
+    // 2. strictly sequential callers (every order), on the phases and through the real service
+    //    with awaited mutate_raw: this is where the theorem says the property holds
+    for (name, s) in directed().into_iter().chain(directed3()) {
+        for pi in orders(s.muts.len()) {
+            let c = rn.case(&format!("sequential:{}", name), &s, &serial_sched(&pi), false); out.push(c);
+            if let Some(t) = without_rooms(&s) { let c = rn.case_service(&format!("service-sequential:{}", name), &t, &pi); out.push(c); }
+        }
+    }
+    // 3. every schedule of every directed 2-mutation scenario
     for (name, s) in directed() {
         for (k, sg) in sched2.iter().enumerate() { let c = rn.case(&format!("all2:{}", name), &s, sg, k % 2 == 1); out.push(c); }
     }
-    // 2. three mutations: all schedules in the thorough tier, a sample in the quick tier
+    // 4. three mutations: all schedules in the thorough tier, a sample in the quick tier
     for (name, s) in directed3() {
         if tier_thorough() {
             for (k, sg) in sched3.iter().enumerate() { let c = rn.case(&format!("all3:{}", name), &s, sg, k % 2 == 1); out.push(c); }
         } else {
-            for k in 0..60 { let sg = rng.pick(&sched3).clone(); let c = rn.case(&format!("sample3:{}", name), &s, &sg, k % 2 == 1); out.push(c); }
+            for k in 0..40 { let sg = rng.pick(&sched3).clone(); let c = rn.case(&format!("sample3:{}", name), &s, &sg, k % 2 == 1); out.push(c); }
         }
     }
-    // 3. random scenarios: all schedules (2 mutations) or random schedules (3 mutations)
+    // 5. random scenarios: every sequential order (phases; through the service when no room is
+    //    involved), then all schedules (2 mutations) or random schedules (3 mutations)
     for _ in 0..scale(30, 150) {
         let s = gen_scen(&mut rng, 2);
+        for pi in orders(2) {
+            let c = rn.case("random-sequential", &s, &serial_sched(&pi), false); out.push(c);
+            if let Some(t) = without_rooms(&s) { let c = rn.case_service("random-service-sequential", &t, &pi); out.push(c); }
+        }
         for (k, sg) in sched2.iter().enumerate() { let c = rn.case("random2", &s, sg, k % 3 == 1); out.push(c); }
     }
     for _ in 0..scale(50, 300) {
         let s = gen_scen(&mut rng, 3);
-        for k in 0..scale(8, 16) {
+        for pi in orders(3).into_iter().take(scale(3, 6)) {
+            let c = rn.case("random-sequential", &s, &serial_sched(&pi), false); out.push(c);
+            if let Some(t) = without_rooms(&s) { let c = rn.case_service("random-service-sequential", &t, &pi); out.push(c); }
+        }
+        for k in 0..scale(6, 12) {
             let (kind, sg) = if k % 2 == 0 { ("random3", random_schedule(&mut rng, 3)) } else { ("random3-disjoint-windows", random_schedule_disjoint(&mut rng, &s)) };
             let c = rn.case(kind, &s, &sg, k % 3 == 1); out.push(c);
         }
@@ -562,7 +694,7 @@ fn main() {
     eprintln!("c16: {} cases; schedules of 2: {}, of 3: {}; overlapping windows: {}; final state equals a serial outcome: {}, does not: {}; {:?}",
         out.n, sched2.len(), sched3.len(), rn.n_overlap, rn.n_serializable, rn.n_not, rn.env.stats);
     out.push(Case { kind: "generator-statistics".into(), coq: "CNote".into(), obs: vec![],
-        meta: json!({"schedules_of_2": sched2.len(), "schedules_of_3": sched3.len(), "cases_with_overlapping_windows": rn.n_overlap,
+        meta: json!({"schedules_of_2": sched2.len(), "schedules_of_3": sched3.len(), "cases_with_overlapping_windows": rn.n_overlap, "strictly_sequential_cases": rn.n_sequential,
                      "final_equals_a_serial_outcome": rn.n_serializable, "final_equals_no_serial_outcome": rn.n_not,
                      "final_rows_with_invalid_signature": rn.env.stats.get("final_row_signature_invalid").copied().unwrap_or(0)}) });
     drop(rn);
